@@ -109,9 +109,21 @@ func genProtoFile(r *rand.Rand, idx int, dir, pkgName string) *c19File {
 	if strings.HasPrefix(f.Proto, fmt.Sprint(idx)) {
 		f.Proto = "p" + f.Proto
 	}
+	if r.Intn(6) == 0 {
+		f.Proto = "" // a file without a package statement: full names have no qualifier
+	}
+	qual := func(name string) string {
+		if f.Proto == "" {
+			return name
+		}
+		return f.Proto + "." + name
+	}
 	fd := &descriptorpb.FileDescriptorProto{
 		Name: proto.String(f.Name), Package: proto.String(f.Proto), Syntax: proto.String("proto3"),
 		Options: &descriptorpb.FileOptions{GoPackage: proto.String(fmt.Sprintf("%s/%s;%s", genModule, dir, pkgName))},
+	}
+	if f.Proto == "" {
+		fd.Package = nil
 	}
 	nmsg := 1 + r.Intn(3)
 	for k := 0; k < nmsg; k++ {
@@ -129,16 +141,28 @@ func genProtoFile(r *rand.Rand, idx int, dir, pkgName string) *c19File {
 			return ".dep.pkg." + m, "dep." + camelCase(m)
 		}
 		m := f.Messages[r.Intn(len(f.Messages))]
-		return "." + f.Proto + "." + m, camelCase(m)
+		return "." + qual(m), camelCase(m)
 	}
 	nsvc := 1 + r.Intn(4)
+	// a sixth of the files are small on purpose: one service with one method whose request or response type
+	// is the only thing in the file that refers to the other package
+	focus := r.Intn(6) == 0
+	if focus {
+		nsvc, f.UsesDep = 1, true
+		if len(fd.Dependency) == 0 {
+			fd.Dependency = append(fd.Dependency, depFile)
+		}
+	}
 	names := append([]string{}, c19SvcNames...)
 	r.Shuffle(len(names), func(a, b int) { names[a], names[b] = names[b], names[a] })
 	for s := 0; s < nsvc; s++ {
 		sname := fmt.Sprintf("%s%d", names[s], idx)
-		svc := c19Service{Name: sname, GoName: camelCase(sname), FullName: f.Proto + "." + sname}
+		svc := c19Service{Name: sname, GoName: camelCase(sname), FullName: qual(sname)}
 		sd := &descriptorpb.ServiceDescriptorProto{Name: proto.String(sname)}
 		nm := r.Intn(13)
+		if focus {
+			nm = 1
+		}
 		mnames := append([]string{}, c19MethodNames...)
 		r.Shuffle(len(mnames), func(a, b int) { mnames[a], mnames[b] = mnames[b], mnames[a] })
 		streamIdx := 0
@@ -152,6 +176,14 @@ func genProtoFile(r *rand.Rand, idx int, dir, pkgName string) *c19File {
 			cs, ss := r.Intn(3) == 0, r.Intn(3) == 0
 			inP, inG := typeFor()
 			outP, outG := typeFor()
+			if focus {
+				local := f.Messages[0]
+				depMsg := pick(r, "Shared", "other_msg")
+				inP, inG, outP, outG = "."+qual(local), camelCase(local), ".dep.pkg."+depMsg, "dep."+camelCase(depMsg)
+				if r.Intn(2) == 0 {
+					inP, inG, outP, outG = outP, outG, inP, inG
+				}
+			}
 			md := &descriptorpb.MethodDescriptorProto{Name: proto.String(mn), InputType: proto.String(inP), OutputType: proto.String(outP)}
 			if cs {
 				md.ClientStreaming = proto.Bool(true)
